@@ -342,6 +342,21 @@ def m_find(e, st, a, ctx):
     return opt(found, byte_of_char_index(sv, idx))
 
 
+@model(r'core::str::<impl str>::match_indices::<.*>')
+def m_match_indices(e, st, a, ctx):
+    """non-overlapping occurrences from the left, as (byte index, matched text) pairs (eager). Model bound: non-empty pattern."""
+    sv = as_str(e, st, a[0])
+    p = S(1, [a[1]]) if is_int(a[1]) else as_str(e, st, a[1])
+    e.oblige(st, p.len >= 1, 'model bound: match_indices with an empty pattern', 'unwind')
+    n = len(sv.ch)
+    free = 0; takes = []
+    for i in range(n):
+        t = simp(zand(match_at(sv, p, i), i >= free, p.len >= 1))
+        takes.append(t); free = zite(t, i + p.len, free)
+    cells = [T([byte_of_char_index(sv, i), p]) for i in range(n)]
+    return mat_iter(compact(V(n, cells), takes))
+
+
 @model(r'core::str::<impl str>::trim', r'core::str::<impl str>::trim_start', r'core::str::<impl str>::trim_end')
 def m_trim(e, st, a, ctx):
     sv = as_str(e, st, a[0])
